@@ -127,26 +127,43 @@ def apalache(cwd, module, args, timeout=300):
 
 
 # --------------------------------------------------------------------------- Go harness
-def go_sum():
+def harness_dir():
+    """the harness module directory; for VERIF_REPO != /repo (mutant trials on scratch worktrees) a private copy
+    whose replace directives point at that tree"""
+    if REPO == "/repo":
+        return HARNESS
+    d = os.path.join(os.environ.get("TMPDIR") or "/tmp", "verif-harness-" + hashlib.sha1(REPO.encode()).hexdigest()[:10])
+    if os.path.isdir(d):
+        shutil.rmtree(d)
+    shutil.copytree(HARNESS, d, ignore=shutil.ignore_patterns("*.test", "go.sum"))
+    gm = open(os.path.join(d, "go.mod")).read().replace("=> /repo/v2", "=> %s/v2" % REPO).replace("=> /repo\n", "=> %s\n" % REPO)
+    open(os.path.join(d, "go.mod"), "w").write(gm)
+    return d
+
+
+def go_sum(hd):
     """harness go.sum = union of the repository's two go.sum files (no network)"""
     lines = set()
     for f in (os.path.join(REPO, "go.sum"), os.path.join(REPO, "v2", "go.sum")):
         with open(f) as fh:
             lines.update(l for l in fh if l.strip())
-    with open(os.path.join(HARNESS, "go.sum"), "w") as fh:
+    with open(os.path.join(hd, "go.sum"), "w") as fh:
         fh.writelines(sorted(lines))
 
 
 def build_test(pkg, out, race=True, tags="verif", timeout=900):
-    """go test -c of a harness package against /repo's current working tree"""
-    go_sum()
+    """go test -c of a harness package against the current working tree of the repository (VERIF_REPO, default /repo)"""
+    hd = harness_dir()
+    go_sum(hd)
     cmd = [GO, "test", "-c", "-vet=off", "-o", out]
     if race:
         cmd.append("-race")
     if tags:
         cmd += ["-tags", tags]
     cmd.append("./" + pkg)
-    rc, o, wall = run(cmd, cwd=HARNESS, env=GOENV, timeout=timeout)
+    rc, o, wall = run(cmd, cwd=hd, env=GOENV, timeout=timeout)
+    if hd != HARNESS:
+        shutil.rmtree(hd, ignore_errors=True)
     if rc != 0:
         # a tree that does not compile with the hooks on is not a property violation
         raise Inconclusive("harness build failed for %s\n%s" % (pkg, o[-4000:]))
